@@ -114,7 +114,13 @@ fn main() {
                     c.push_str(&case.to_string());
                 }
                 ctx.case = case.clone();
-                replay::run_case(&mut ctx, &case, &opts);
+                // every library call is made under catch_unwind where its outcome is compared; this outer
+                // guard catches a panic that escapes while the harness builds a pre-state or projects a result
+                let r = std::panic::catch_unwind(std::panic::AssertUnwindSafe(|| replay::run_case(&mut ctx, &case, &opts)));
+                if r.is_err() {
+                    ctx.check("C06", "library panicked while a pre-state was built or a result was projected", "-", false,
+                              &json!("value or error"), &json!({"panic": true}));
+                }
             }
             replay::finish_pool(&mut ctx);
             PROGRESS.store(u64::MAX, Ordering::Relaxed);
